@@ -303,6 +303,9 @@ func (h *Hist) randomEvent() string {
 	hard := int64(o.HardDeleteGracePeriodDuration() / time.Second)
 	cool := o.ScaleUpCoolDownPeriodDuration()
 	ev := r.intn(22)
+	if focus == "faults" && r.chance(30) {
+		ev = r.pickI(15, 15, 4, 19, 13) // odd nodes, odd taint values, vanished objects, deliveries
+	}
 	if focus == "cooldown" && r.chance(45) {
 		ev = r.pickI(10, 11, 12, 21, 4, 5, 6) // advances around the cool-down, load changes, taints and cordons inside the window
 	}
@@ -502,8 +505,11 @@ func (h *Hist) runHistory(scans int) (bool, string) {
 		}
 		faults := map[int]bool{}
 		failDesc := map[string]bool{}
-		if h.r.chance(25) {
+		if h.r.chance(25) || (focus == "faults" && h.r.chance(60)) {
 			nf := h.r.pickI(1, 1, 2, 3)
+			if focus == "faults" {
+				nf = h.r.pickI(1, 2)
+			}
 			for i := 0; i < nf; i++ {
 				faults[h.r.intn(14)] = true
 			}
